@@ -42,6 +42,21 @@ ENCODED = [
     RpcError.__init__,
 ]
 
+BOUNDS = (
+    "12 exception classes chosen by a symbolic index (3 built-in, 5 user-defined with no / str / empty / int / None error_kind, the 4 typed framework errors); "
+    "message text = concatenation of <= %d atoms from a 6-atom alphabet (one per UTF-8 width, newline, quote) plus 5 concrete messages incl. empty and 40 000 chars; "
+    "4 socket dispatch sites; every http.HTTPStatus member."
+) % pick(3, 4)
+OUTSIDE = (
+    "arbitrary code points in the message (f'{exc}' in from_exception realises a symbolic message under CrossHair, so the text is drawn from an alphabet); "
+    "symbolic class names (a class cannot be given a symbolic __name__); chained exceptions (__cause__/__context__); the content of remote_traceback; "
+    "HTTP dispatch sites (_run_unary_sync / stream init / exchange turn) — only the response helpers are decided; traceback truncation boundary."
+)
+ASSUMPTIONS = [
+    "kernel items: json is a transparent carrier and the Arrow metadata container a transparent mapping (real json/pyarrow in the dispatch-site item and in every replay)",
+    "dispatch-site item: time.monotonic is a concrete counter",
+]
+
 _SCHEMA = pa.schema([pa.field("v", pa.int64())])
 
 # ---------------------------------------------------------------------------
@@ -196,9 +211,10 @@ def _faithful(ci: int, exc: BaseException, err) -> bool:  # type: ignore[no-unty
         return False
     if err.error_type != _NAMES[ci]:
         return False
-    if str(exc) not in err.error_message:
-        return False
-    return True
+    text = str(exc)
+    m = err.error_message
+    # "carries the exception text": cheap exact forms first, general containment last
+    return bool(m == text or m == _NAMES[ci] + ": " + text or text in m)
 
 
 def _kind_exposed(ci: int, err) -> bool:  # type: ignore[no-untyped-def]
@@ -206,19 +222,326 @@ def _kind_exposed(ci: int, err) -> bool:  # type: ignore[no-untyped-def]
 
 
 _NM = pick(3, 4)
+_TEXT_CLASSES = (0, 4, 9)  # ValueError, KindedAppError, MethodNotImplementedError (an AttributeError)
+_MESSAGES = ("", "x", "line one\nline two", "h\u00e9 \u2713 \U0001f600", "L" * 40000)
+# one representative per UTF-8 width plus the characters that matter to the formatting code
+_ATOMS = ("a", "\n", "\u00e9", "\u2713", "\U0001f600", "'")
 
 
-@cond(q=60, t=240, encoded=ENCODED, stubs=_RT_STUBS, bound="12 exception classes x message any str len<=%d (any code point, incl. newline and empty) x server_id set or not" % _NM)
-def error_type_and_message_roundtrip(ci: int, msg: str, has_sid: bool) -> bool:
+@cond(q=60, t=300, encoded=ENCODED, stubs=_RT_STUBS,
+      bound="message = concatenation of <= %d atoms chosen by symbolic indices from %r, for ValueError / a user class with a kind / MethodNotImplementedError" % (_NM, _ATOMS))
+def error_message_text_roundtrip(c3: int, n: int, a0: int, a1: int, a2: int, a3: int) -> bool:
     """
-    pre: 0 <= ci <= 11 and len(msg) <= _NM
+    pre: 0 <= c3 <= 2 and 0 <= n <= _NM
+    pre: 0 <= a0 <= 5 and 0 <= a1 <= 5 and 0 <= a2 <= 5 and 0 <= a3 <= 5
+    post: _
+    """
+    ci = _TEXT_CLASSES[_concrete(c3, 3)]
+    idx = (a0, a1, a2, a3)
+    msg = ""
+    for i in range(n):
+        msg = msg + _ATOMS[_concrete(idx[i], 6)]
+    try:
+        exc, err, other = _kernel(ci, msg, True)
+    except Exception:  # noqa: BLE001
+        return False
+    return other is None and _faithful(ci, exc, err)
+
+
+@cond(q=60, t=120, encoded=ENCODED, stubs=_RT_STUBS,
+      bound="12 exception classes x 5 concrete messages (empty, 1 char, multi-line, non-ASCII, 40 000 chars) x server_id set or not")
+def error_class_roundtrip(ci: int, mi: int, has_sid: bool) -> bool:
+    """
+    pre: 0 <= ci <= 11 and 0 <= mi <= 4
     post: _
     """
     ci = _concrete(ci, len(_CLASSES))
     try:
-        exc, err, other = _kernel(ci, msg, has_sid)
-    except UnicodeEncodeError:
-        return True  # lone surrogates: not Unicode text, cannot be put on the wire
+        exc, err, other = _kernel(ci, _MESSAGES[_concrete(mi, 5)], has_sid)
     except Exception:  # noqa: BLE001
         return False
     return other is None and _faithful(ci, exc, err)
+
+
+# ---------------------------------------------------------------------------
+# the error kind: carried on the wire AND exposed by the client-side error object
+# ---------------------------------------------------------------------------
+
+
+def _real_error_roundtrip(exc: BaseException):  # type: ignore[no-untyped-def]
+    """Un-stubbed: real error stream bytes (pyarrow, json), real client reader."""
+    buf = BytesIO()
+    wire._write_error_stream(buf, _SCHEMA, exc, server_id="srv")
+    raw = buf.getvalue()
+    on_wire = None
+    rd0 = ipc.open_stream(BytesIO(raw))
+    _, cm = rd0.read_next_batch_with_custom_metadata()
+    if cm is not None and cm.get(md.ERROR_KIND_KEY) is not None:
+        on_wire = cm.get(md.ERROR_KIND_KEY).decode()
+    rd = ValidatedReader(ipc.open_stream(BytesIO(raw)), IpcValidation.FULL)
+    try:
+        wire._read_batch_with_log_check(rd, None)
+    except RpcError as e:
+        return e, on_wire
+    return None, on_wire
+
+
+def _replay_kind(args: dict) -> str | None:
+    ci = args["ci"]
+    exc = _CLASSES[ci]("boom")
+    err, on_wire = _real_error_roundtrip(exc)
+    if err is None:
+        return "no RpcError raised from a real error stream for %s" % _NAMES[ci]
+    got = getattr(err, "error_kind", None)
+    if got != _WANT_KIND[ci]:
+        return "%s declares error_kind=%r; the wire carries vgi_rpc.error_kind=%r; the client's RpcError exposes %r (attributes: %s)" % (
+            _NAMES[ci], _WANT_KIND[ci], on_wire, got, sorted(vars(err)))
+    return None
+
+
+@cond(q=30, t=60, encoded=ENCODED, stubs=_RT_STUBS, replay=_replay_kind, signature=lambda a, c: "C07:rpcerror:error-kind-not-exposed",
+      bound="12 exception classes (4 typed framework errors, user classes declaring a str / empty str / int / None kind, 4 without) x server_id set or not")
+def error_kind_exposed_iff_declared(ci: int, has_sid: bool) -> bool:
+    """
+    pre: 0 <= ci <= 11
+    post: _
+    """
+    ci = _concrete(ci, len(_CLASSES))
+    try:
+        exc, err, other = _kernel(ci, "boom", has_sid)
+    except Exception:  # noqa: BLE001
+        return False
+    if other is not None or err is None:
+        return False
+    return _kind_exposed(ci, err)
+
+
+# ---------------------------------------------------------------------------
+# (c) HTTP: 500 => 200 + marker header; any other status => its own code, no marker
+# ---------------------------------------------------------------------------
+
+from vgi_rpc.http._common import _ARROW_CONTENT_TYPE, RPC_ERROR_HEADER  # noqa: E402
+from vgi_rpc.http.server import _responses as resp_mod  # noqa: E402
+
+_STATUSES = tuple(HTTPStatus)
+
+
+class _Resp:
+    """falcon.Response as far as the helpers use it: status, headers, content_type, stream."""
+
+    def __init__(self) -> None:
+        self.status = None
+        self.headers: dict = {}
+        self.content_type = None
+        self.stream = None
+
+    def set_header(self, name: str, value: str) -> None:
+        self.headers[name.lower()] = value
+
+    def __getattr__(self, name: str):  # pragma: no cover
+        raise HarnessModelError("response stub touched through " + name)
+
+
+def _replay_status(args: dict) -> str | None:
+    import falcon
+
+    st = _STATUSES[args["si"]]
+    r = falcon.Response()
+    resp_mod._set_error_response(r, ValueError("boom"), status_code=st, server_id="srv")
+    marker = r.get_header(RPC_ERROR_HEADER)
+    code = int(str(r.status).split()[0])
+    want_code, want_marker = (200, True) if st == HTTPStatus.INTERNAL_SERVER_ERROR else (st.value, False)
+    if code != want_code or (marker is not None) != want_marker:
+        return "status %s answered as %s with marker header %r" % (st.value, r.status, marker)
+    rd = ValidatedReader(ipc.open_stream(BytesIO(r.stream.getvalue())), IpcValidation.FULL)
+    try:
+        wire._read_batch_with_log_check(rd, None)
+    except RpcError as e:
+        if e.error_type != "ValueError" or "boom" not in e.error_message:
+            return "error body of status %s decodes to %s: %s" % (st.value, e.error_type, e.error_message)
+        return None
+    return "error body of status %s carries no error batch" % st.value
+
+
+@cond(q=30, t=60, encoded=[resp_mod._set_http_status, resp_mod._set_error_response, resp_mod._error_response_stream], replay=_replay_status,
+      stubs=["falcon.Response := object recording status / headers / content_type / stream"], signature=lambda a, c: "C07:http-status:marker-mismatch",
+      bound="every member of http.HTTPStatus (%d) x with/without an error body" % len(_STATUSES))
+def http_status_marker(si: int, with_body: bool) -> bool:
+    """
+    pre: 0 <= si < len(_STATUSES)
+    post: _
+    """
+    st = _STATUSES[_concrete(si, len(_STATUSES))]
+    r = _Resp()
+    try:
+        if with_body:
+            resp_mod._set_error_response(r, AppError("boom"), status_code=st, server_id="srv")  # type: ignore[arg-type]
+        else:
+            resp_mod._set_http_status(r, st)  # type: ignore[arg-type]
+    except Exception:  # noqa: BLE001
+        return False
+    marker = r.headers.get(RPC_ERROR_HEADER.lower())
+    if st == HTTPStatus.INTERNAL_SERVER_ERROR:
+        if r.status != "200" or marker != "true":
+            return False
+    else:
+        if marker is not None or r.status != str(st.value):
+            return False
+    if with_body:
+        if r.content_type != _ARROW_CONTENT_TYPE:
+            return False
+        rd = ValidatedReader(ipc.open_stream(BytesIO(r.stream.getvalue())), IpcValidation.FULL)
+        try:
+            wire._read_batch_with_log_check(rd, None)
+        except RpcError as e:
+            return e.error_type == "AppError" and "boom" in e.error_message
+        except Exception:  # noqa: BLE001
+            return False
+        return False
+    return True
+
+
+# ---------------------------------------------------------------------------
+# (b) the socket server's dispatch sites, real pyarrow + real json, symbolic (class, message, site)
+# ---------------------------------------------------------------------------
+
+from dataclasses import dataclass  # noqa: E402
+from typing import Protocol  # noqa: E402
+
+from vgi_rpc.log import Level  # noqa: E402
+from vgi_rpc.rpc import ProducerState, Stream  # noqa: E402
+from vgi_rpc.rpc import _server as srv  # noqa: E402
+from vgi_rpc.rpc._common import _EMPTY_SCHEMA  # noqa: E402
+from vgi_rpc.utils import empty_batch  # noqa: E402
+
+_S: dict = {"exc": None, "site": 0, "step": 0}
+_SITE_UNARY, _SITE_INIT, _SITE_FIRST_STEP, _SITE_LATER_STEP = 0, 1, 2, 3
+_DATA = pa.RecordBatch.from_pydict({"v": [1]}, schema=_SCHEMA)
+
+
+@dataclass
+class _State(ProducerState):
+    def produce(self, out, ctx) -> None:  # type: ignore[no-untyped-def]
+        step = _S["step"]
+        _S["step"] = step + 1
+        if _S["site"] == _SITE_FIRST_STEP or step == 1:
+            raise _S["exc"]
+        ctx.client_log(Level.INFO, "before the failure")
+        out.emit(_DATA)
+
+
+class _Proto(Protocol):
+    def u(self) -> int: ...
+
+    def gen(self) -> Stream[ProducerState]: ...
+
+
+class _Impl:
+    def u(self) -> int:
+        raise _S["exc"]
+
+    def gen(self) -> Stream[_State]:
+        if _S["site"] == _SITE_INIT:
+            raise _S["exc"]
+        return Stream(output_schema=_SCHEMA, state=_State())
+
+
+class _Clock:
+    """time := concrete counter (CrossHair's symbolic clock discards most full runs; durations only feed the access log)."""
+
+    def __init__(self) -> None:
+        self.now = 0
+
+    def monotonic(self) -> int:
+        self.now += 1
+        return self.now
+
+    def __getattr__(self, name: str):  # pragma: no cover
+        raise HarnessModelError("clock stub touched through " + name)
+
+
+_SERVER = srv.RpcServer(_Proto, _Impl(), server_id="srv", ipc_validation=IpcValidation.FULL)
+_serve_unary_rg = reglobalize(srv.RpcServer._serve_unary, time=_Clock())
+_serve_stream_rg = reglobalize(srv.RpcServer._serve_stream, time=_Clock())
+
+
+def _ticks(n: int) -> bytes:
+    b = BytesIO()
+    with ipc.new_stream(b, _EMPTY_SCHEMA) as w:
+        for _ in range(n):
+            w.write_batch(empty_batch(_EMPTY_SCHEMA))
+    return b.getvalue()
+
+
+_TICKS = _ticks(3)
+
+
+class _MemTransport:
+    def __init__(self, request: bytes) -> None:
+        self.reader = BytesIO(request)
+        self.writer = BytesIO()
+
+    def close(self) -> None:
+        pass
+
+
+def _site_run(ci: int, msg: str, site: int, real: bool):  # type: ignore[no-untyped-def]
+    """Returns (exc, data batches seen, logs seen, RpcError | None)."""
+    exc = _CLASSES[ci](msg)
+    _S["exc"] = exc
+    _S["site"] = site
+    _S["step"] = 0
+    tr = _MemTransport(_TICKS)
+    if site == _SITE_UNARY:
+        info = _SERVER._methods["u"]
+        (srv.RpcServer._serve_unary if real else _serve_unary_rg)(_SERVER, tr, info, {})
+    else:
+        info = _SERVER._methods["gen"]
+        (srv.RpcServer._serve_stream if real else _serve_stream_rg)(_SERVER, tr, info, {})
+    rd = ValidatedReader(ipc.open_stream(BytesIO(tr.writer.getvalue())), IpcValidation.FULL)
+    data: list = []
+    logs: list = []
+    err = None
+    while True:
+        try:
+            ab = wire._read_batch_with_log_check(rd, logs.append)
+        except StopIteration:
+            break
+        except RpcError as e:
+            err = e
+            break
+        data.append(ab.batch)
+    return exc, data, logs, err
+
+
+def _site_ok(ci: int, msg: str, site: int, real: bool) -> bool:
+    try:
+        exc, data, logs, err = _site_run(ci, msg, site, real)
+    except Exception:  # noqa: BLE001
+        return False
+    if not _faithful(ci, exc, err):
+        return False
+    if err.request_id is None or not isinstance(err.remote_traceback, str):
+        return False
+    if site == _SITE_LATER_STEP:
+        return len(data) == 1 and data[0].equals(_DATA) and len(logs) == 1 and logs[0].message == "before the failure"
+    return data == [] and logs == []
+
+
+def _replay_site(args: dict) -> str | None:
+    ok = _site_ok(args["ci"], _MESSAGES[args["mi"]], args["site"], real=True)
+    return None if ok else "error raised by the implementation (class %s, site %d) did not reach the client as a faithful RpcError" % (_NAMES[args["ci"]], args["site"])
+
+
+_MI = pick(1, 3)
+
+
+@cond(q=60, t=300, encoded=[srv.RpcServer._serve_unary, srv.RpcServer._serve_stream] + ENCODED, replay=_replay_site,
+      stubs=["time.monotonic := concrete counter (access-log duration only)"], signature=lambda a, c: "C07:dispatch-site:error-not-faithful",
+      bound="12 exception classes x %d concrete messages x 4 socket dispatch sites (unary, stream init, first process step, later step after a log and a data batch); real pyarrow and json" % (_MI + 1))
+def error_at_dispatch_sites(ci: int, mi: int, site: int) -> bool:
+    """
+    pre: 0 <= ci <= 11 and 0 <= mi <= _MI and 0 <= site <= 3
+    post: _
+    """
+    return _site_ok(_concrete(ci, len(_CLASSES)), _MESSAGES[_concrete(mi, 5)], _concrete(site, 4), real=False)
